@@ -143,3 +143,53 @@ def pointwise(rows, limit=1024):
         if len(out) > limit:
             return None
     return out
+
+
+def inline_flag(term):
+    """a boolean computed in the message parser from exactly one transmitted bit, e.g.
+    `bits == 1`, `bits != 0` or nom's `bits::complete::bool`: returns (source, {0: bool, 1: bool})
+    or None when the term is not of that form"""
+    if not (isinstance(term, tuple) and len(term) == 2 and term[0] == "bool"):
+        return None
+    ss = set(sources(term[1]))
+    if len(ss) != 1:
+        return None
+    src = next(iter(ss))
+    if src[0] != "bits" or src[2] != 1:
+        return None
+
+    def lin_val(l, v):
+        if l == src:
+            return v
+        if l[0] == "const":
+            return l[1]
+        if l[0] == "lin":
+            tot = l[2]
+            for a, k in l[1]:
+                if a != src:
+                    raise ValueError
+                tot += k * v
+            return tot
+        raise ValueError
+
+    def ev(c, v):
+        if c is True or c is False:
+            return c
+        if c[0] == "in":
+            if c[1] != src:
+                raise ValueError
+            return any(lo <= v <= hi for lo, hi in c[2])
+        if c[0] == "le0":
+            return lin_val(c[1], v) <= 0
+        if c[0] == "not":
+            return not ev(c[1], v)
+        if c[0] == "and":
+            return ev(c[1], v) and ev(c[2], v)
+        if c[0] == "or":
+            return ev(c[1], v) or ev(c[2], v)
+        raise ValueError
+
+    try:
+        return src, {0: ev(term[1], 0), 1: ev(term[1], 1)}
+    except (ValueError, TypeError, IndexError):
+        return None
